@@ -190,44 +190,45 @@ def _chunk(jobs):
             out.append({"tree": refl.tree, "prog": prog, "log": log, "outcome": outcome, "result": shape, "raised": raised, "mutated": mutated,
                         "_meta": {"seed": sd, "text": text[:300], "program": [{k: v for k, v in p.items() if k != "rep"} for p in prog], "n_nodes": len(refl.nodes)}})
         # parallel: non-editing programs see alone what they see together
-        progs = []
-        for _ in range(rng.choice([2, 3, 4])):
-            p, t = make_program(rng, refl, rng.choice([0, 1, 2]))
-            t = {k: v for k, v in t.items() if v[0] in ("skip", "break")}
-            progs.append(t)
-        alone = [run_visit(root, refl, t)[0] for t in progs]
-        from graphql.language import Visitor, BREAK, SKIP
-        logs = [[] for _ in progs]
+        for _par in range(8):
+          progs = []
+          for _ in range(rng.choice([2, 3, 4])):
+              p, t = make_program(rng, refl, rng.choice([0, 1, 2]))
+              t = {k: v for k, v in t.items() if v[0] in ("skip", "break")}
+              progs.append(t)
+          alone = [run_visit(root, refl, t)[0] for t in progs]
+          from graphql.language import Visitor, BREAK, SKIP
+          logs = [[] for _ in progs]
 
-        def mk(i, t):
-            class V(Visitor):
-                def enter(self, node, key, parent, path, ancestors):
-                    nid = refl.id_of(node)
-                    logs[i].append(("enter", nid))
-                    d = t.get(("enter", nid))
-                    return None if d is None else (SKIP if d[0] == "skip" else BREAK)
+          def mk(i, t):
+              class V(Visitor):
+                  def enter(self, node, key, parent, path, ancestors):
+                      nid = refl.id_of(node)
+                      logs[i].append(("enter", nid))
+                      d = t.get(("enter", nid))
+                      return None if d is None else (SKIP if d[0] == "skip" else BREAK)
 
-                def leave(self, node, key, parent, path, ancestors):
-                    nid = refl.id_of(node)
-                    logs[i].append(("leave", nid))
-                    d = t.get(("leave", nid))
-                    return None if d is None else BREAK
-            return V()
-        par_raised = ""
-        try:
-            visit(root, ParallelVisitor([mk(i, t) for i, t in enumerate(progs)]))
-        except Exception as e:  # noqa: BLE001
-            par_raised = type(e).__name__
-        for i, t in enumerate(progs):
-            want = [(e["ph"], e["id"]) for e in alone[i]]
-            if par_raised:
-                out.append({"parallel_violation": "parallel-visit-raised", "_meta": {"seed": sd, "text": text[:300], "exc": par_raised}})
-                break
-            if logs[i] != want:
-                k = next((j for j, (a, b) in enumerate(zip(logs[i], want)) if a != b), min(len(logs[i]), len(want)))
-                out.append({"parallel_violation": "parallel-log-differs-from-alone", "_meta": {"seed": sd, "text": text[:300], "visitor": i,
-                            "programs": [sorted((k2[0], k2[1], v[0]) for k2, v in tt.items()) for tt in progs], "at": k,
-                            "together": logs[i][k:k + 2], "alone": want[k:k + 2]}})
+                  def leave(self, node, key, parent, path, ancestors):
+                      nid = refl.id_of(node)
+                      logs[i].append(("leave", nid))
+                      d = t.get(("leave", nid))
+                      return None if d is None else BREAK
+              return V()
+          par_raised = ""
+          try:
+              visit(root, ParallelVisitor([mk(i, t) for i, t in enumerate(progs)]))
+          except Exception as e:  # noqa: BLE001
+              par_raised = type(e).__name__
+          for i, t in enumerate(progs):
+              want = [(e["ph"], e["id"]) for e in alone[i]]
+              if par_raised:
+                  out.append({"parallel_violation": "parallel-visit-raised", "_meta": {"seed": sd, "text": text[:300], "exc": par_raised}})
+                  break
+              if logs[i] != want:
+                  k = next((j for j, (a, b) in enumerate(zip(logs[i], want)) if a != b), min(len(logs[i]), len(want)))
+                  out.append({"parallel_violation": "parallel-log-differs-from-alone", "_meta": {"seed": sd, "text": text[:300], "visitor": i,
+                              "programs": [sorted((k2[0], k2[1], v[0]) for k2, v in tt.items()) for tt in progs], "at": k,
+                              "together": logs[i][k:k + 2], "alone": want[k:k + 2]}})
     return out
 
 
